@@ -146,7 +146,7 @@ def seeded_phsp_p(config, n, seed):
         return config.generate_phsp_p(n)
 
 
-def randomize_params(amp, rs, scale=1.0):
+def randomize_params(amp, rs, scale=1.0, p_neg=0.0):
     """seeded parameter point: every free parameter gets an absolute seeded value (the library's own
     initial values come from a real RNG and must not leak into a simulated session)"""
     vals = {}
@@ -154,5 +154,7 @@ def randomize_params(amp, rs, scale=1.0):
         if name.endswith("_mass") or name.endswith("_width"):
             continue
         vals[name] = round(scale * rs.uniform(-1, 1) + (1.0 if name.endswith("r") else 0.0), 6)
+        if p_neg and name.endswith("r") and rs.chance(p_neg):
+            vals[name] = -abs(vals[name])  # a negative magnitude is a legal point (phase shifted by pi)
     amp.set_params(vals)
     return vals
